@@ -567,14 +567,13 @@
 	}
 	fn shorts(v: &[At]) -> String { v.iter().map(short).collect::<Vec<_>>().join(" + ") }
 	fn kind(a: &At) -> &str { &a.name }
-	/// every ordered selection of up to `max` attributes of the menu, no attribute name twice (JVMS allows most attributes once per table)
+	/// every ordered selection of up to `max` attributes of the menu, shortest first, no attribute name twice (JVMS allows most attributes once per table)
 	fn selections(menu: &[At], max: usize, f: &mut dyn FnMut(&[At])) {
-		fn rec(menu: &[At], left: usize, cur: &mut Vec<At>, f: &mut dyn FnMut(&[At])) {
-			f(cur);
-			if left == 0 { return; }
-			for a in menu { if cur.iter().all(|c| kind(c) != kind(a)) { cur.push(a.clone()); rec(menu, left - 1, cur, f); cur.pop(); } }
+		fn rec(menu: &[At], len: usize, cur: &mut Vec<At>, f: &mut dyn FnMut(&[At])) {
+			if cur.len() == len { f(cur); return; }
+			for a in menu { if cur.iter().all(|c| kind(c) != kind(a)) { cur.push(a.clone()); rec(menu, len, cur, f); cur.pop(); } }
 		}
-		rec(menu, max, &mut Vec::new(), f);
+		for len in 0..=max { rec(menu, len, &mut Vec::new(), f); }
 	}
 
 	fn vt_menu(x: &Bx) -> Vec<Vt> { vec![Vt::Top, Vt::Integer, Vt::Float, Vt::Double, Vt::Long, Vt::Null, Vt::UninitThis, Vt::Object(x.i(B_CLS)), Vt::Uninit(0), Vt::Uninit(65535)] }
